@@ -35,6 +35,9 @@ static int mode_unguarded;
 
 #define LOC_RECLAIM 600
 
+/* not instrumented: the poisoning is harness work, not an access of the code under test (matters only in search
+ * mode, where the whole target fiber_t is registered) */
+__attribute__((no_sanitize("thread")))
 void h_join_free(void* p) {
   if (p && p == (void*)target) {
     rt_event(LOC_RECLAIM, K_EV, 1000);
